@@ -12,6 +12,7 @@ import (
 	"runtime"
 	"sort"
 	"strings"
+	"sync/atomic"
 	"time"
 	"unsafe"
 
@@ -1320,6 +1321,15 @@ func (x *Exec) run(op GenOp, i int) LogOp {
 	if lo.Obs.Without == nil {
 		lo.Obs.Without = []string{}
 	}
+	switch op.Op {
+	case "Set", "QOpen", "QNext", "QClose", "RegF", "UnregF", "RegO", "UnregO", "Emit", "Read":
+	default:
+		if x.w != nil && x.w.IsLocked() {
+			// a structural attempt on a locked world is rejected: it does not count as exercising the variant
+			atomic.AddInt32(&covOff, 1)
+			defer atomic.AddInt32(&covOff, -1)
+		}
+	}
 	x.cur = &lo
 	x.opIndex = i
 	x.hist = append(x.hist, op)
@@ -2394,6 +2404,8 @@ func (x *Exec) misuseBattery(i int) {
 			n = len(ops)
 		}
 	}
+	atomic.AddInt32(&covOff, 1)
+	defer atomic.AddInt32(&covOff, -1)
 	for k, op := range ops[:n] {
 		lo := x.run(op, i+k+1)
 		lo.K = "op"
